@@ -60,4 +60,66 @@ def storableUsers (E : Env) (us : List (Nat × User)) : Bool :=
 
 def sortedUsers (db : UsersDb) : List (Nat × User) := sortBy (fun a b => decide (a.1 ≤ b.1)) db.users
 
+/-! ## ignores.conf -/
+
+def unexpired (now : Nat) (p : Str × Nat) : Bool := decide (now < p.2) || p.2 = 0
+
+/-- an ignore entry the file carries: one word, a user hostmask, not starting with the comment
+character, expiry exactly representable as a double -/
+def storableIgnore (p : Str × Nat) : Bool :=
+  word p.1 && C03.isUserHostmask p.1 && p.1.head? != some '#' && decide (p.2 < 2 ^ 53)
+
+def storableIgnores (now : Nat) (db : IgnoresDb) : Bool :=
+  pairwiseB (fun a b => a.1 != b.1) db && (db.filter (unexpired now)).all storableIgnore
+
+/-! ## networks.conf -/
+
+def sortedNet (n : Net) : Net :=
+  { sts := sortBy (fun a b => strLe a.1 b.1) n.sts, last := sortBy (fun a b => strLe a.1 b.1) n.last }
+
+/-- server names and policies are single words; a record without any line is not written in a
+recoverable way (the next header overwrites it), so it must have at least one -/
+def storableNet (n : Net) : Bool :=
+  pairwiseB (fun a b => a.1 != b.1) n.sts && n.sts.all (fun p => word p.1 && word p.2) &&
+  pairwiseB (fun a b => a.1 != b.1) n.last && n.last.all (fun p => word p.1) &&
+  (!n.sts.isEmpty || !n.last.isEmpty)
+
+def sortedNets (db : NetworksDb) : NetworksDb := sortBy (fun a b => strLe a.1 b.1) db
+
+def storableNets (E : Env) (db : NetworksDb) : Bool :=
+  pairwiseB (fun a b => C03.toLower a.1 != C03.toLower b.1) (sortedNets db) &&
+  (sortedNets db).all (fun p => clean p.1 && E.lower p.1 == p.1 && storableNet p.2)
+
+/-! ## channels.conf -/
+
+/-- the capability list a reload builds: start from `IrcChannel()`'s default anti-capabilities
+and add the written ones in order -/
+def loadedCaps (caps : List Str) : List Str := caps.foldl (fun s c => (capAdd s c).1) defaultChanCaps
+
+/-- `capsOk`, and every default anti-capability is either in the set or displaced by its inverse
+(otherwise the reload adds it back) -/
+def chanCapsOk (caps : List Str) : Bool :=
+  capsOk caps &&
+  defaultChanCaps.all (fun d => caps.contains d ||
+    caps.any (fun c => match C03.invertCapability c with | .ok i => i == d | .error _ => false))
+
+def expsOk (l : List (Str × Nat)) : Bool :=
+  pairwiseB (fun a b => a.1 != b.1) l && l.all (fun p => word p.1 && decide (p.2 < 2 ^ 53))
+
+def storableChan (c : Chan) : Bool := chanCapsOk c.caps && expsOk c.bans && expsOk c.ignores
+
+def sortByExp (l : List (Str × Nat)) : List (Str × Nat) := sortBy (fun a b => decide (a.2 ≤ b.2)) l
+
+/-- what a reload makes of a storable channel: same flags, same capability *set* (see
+`loadedCaps_equiv`), bans and ignores in expiry order -/
+def loadedChan (c : Chan) : Chan :=
+  { lobotomized := c.lobotomized, defaultAllow := c.defaultAllow, caps := loadedCaps c.caps,
+    bans := sortByExp c.bans, ignores := sortByExp c.ignores }
+
+def sortedChans (db : ChannelsDb) : ChannelsDb := sortBy (fun a b => strLe a.1 b.1) db
+
+def storableChans (E : Env) (db : ChannelsDb) : Bool :=
+  pairwiseB (fun a b => C03.toLower a.1 != C03.toLower b.1) (sortedChans db) &&
+  (sortedChans db).all (fun p => clean p.1 && E.lower p.1 == p.1 && storableChan p.2)
+
 end C16
